@@ -1,8 +1,6 @@
 package rules
 
 import (
-	"fmt"
-	"os"
 	"go/ast"
 	"go/token"
 	"go/types"
@@ -159,9 +157,6 @@ func c12piped(c *an.Ctx) {
 				}
 				seen[se.Pos()] = true
 				name := an.Str(se.X)
-				if os.Getenv("JV_DEBUG") != "" {
-					fmt.Fprintf(os.Stderr, "DEBUG deref %s at %s: %v\n", name, p.RelPos(se.Pos()), an.Facts(st))
-				}
 				if shortCircuit[se] {
 					return true
 				}
